@@ -295,7 +295,19 @@ def part_symtext(ctx):
             back = mc.Cif.from_string(text).data
             return text, back, dict(tm.reg)
         t0 = time.time()
-        paths = ex.run(rt)
+        try:
+            paths = ex.run(rt)
+        except symx.SymUnsupported as e:
+            # a number format the text model does not cover: the symbolic part is inconclusive; boundary magnitudes are replayed concretely
+            symtext.install(None)
+            ctx.mark_inconclusive("symtext: " + nm, "writer uses a construct the text model does not cover (%s)" % e)
+            for vals in ((1.5, -2.25, 3), (123456789.123456789, -0.000000000123, -7), (99999.999999999999, 1e-13, 10 ** 9), (-1e15, 0.1 + 0.2, 0)):
+                conc = _concretise(d, None, [(x, vals[0]), (y, vals[1]), (n, vals[2])])
+                okr, det = replay_cif({"cif": conc})
+                if okr:
+                    bad.append((nm, "concrete boundary values: %s" % det[0], conc))
+                    break
+            continue
         ctx.add_paths(ex)
         symtext.install(None)
         nchecked = 0
